@@ -518,6 +518,9 @@ def _mapping_from_score_matrix(score_matrix, algorithm='optimal'):
 
     if score_matrix.dtype.kind == 'i':
         # Needed in numpy >= 1.20, in numpy 1.19 float('-inf') worked
+        # The sentinel has to be smaller than every score: widen small
+        # integer types, so that e.g. an int8 score of -128 stays a score.
+        score_matrix = score_matrix.astype(np.int64)
         neg_inf = np.iinfo(score_matrix.dtype).min
     else:
         neg_inf = float('-inf')
